@@ -40,7 +40,7 @@ def label_configs():
 
 
 def configs(tier, seed):
-    return c02.configs(tier, seed) + label_configs()
+    return c02.configs(tier, seed, n_random=8 if tier == "quick" else 250) + label_configs()
 
 
 def _after(ctx, scheme, opt, stubs):
